@@ -6,7 +6,7 @@ from vmc.gen import scenes
 from vmc.oracles import aff, flatten, paths, picture, shaper
 from vmc.props import common
 
-KEEP = ("outline", "place", "where", "donor_paint", "copy_paint", "grp", "stack", "nglyphs", "vb_size", "rad_geom", "lin_vec", "twin", "grad_twice", "vb_b")
+KEEP = ("outline", "place", "where", "donor_paint", "copy_paint", "grp", "stack", "nglyphs", "vb_size", "rad_geom", "lin_vec", "twin", "grad_twice", "vb_b", "clone")
 DIMS = {k: scenes.DIMS[k] for k in KEEP}
 DIMS["tol"] = [0.1, 0.5, 0.01, 1e-9, 0]
 DIMS["fmt"] = ["glyf_colr_1", "glyf_colr_0", "picosvg"]
